@@ -14,6 +14,7 @@ import re
 from ..core import astutil as au
 from ..core.report import AnalysisError
 from ..core.template import find, has
+from ..core.tables import FiniteEval
 
 LEVEL = 'other'
 PARSER = 'emg3d/cli/parser.py'
@@ -415,7 +416,77 @@ def run(ctx):
         ctx.check('C18.Q2.routing', f'cli.run: {what}', has(pat, rs),
                   f'the parsed options are not passed on to {what}',
                   ctx.where(rm, rs))
-    ctx.floor('C18.Q2.routing', 3)
+    # --clean: the loaded simulation is reset before the model is replaced;
+    # the reset must be one under which Simulation.clean drops the computed
+    # flag and the cached misfit / gradient (else the new model reports the
+    # old model's results)
+    sims = ctx.repo.mod('emg3d/simulations.py')
+    cl = sims.method('Simulation', 'clean')
+    cpar = au.params(cl)[1]
+    resets = set()
+    dom_ = set()
+    for n in ast.walk(cl):
+        if isinstance(n, ast.Compare) and isinstance(n.left, ast.Name) and \
+                n.left.id == cpar and au.const_list(n.comparators[0]):
+            dom_ |= set(au.const_list(n.comparators[0]))
+    for w in sorted(dom_):
+        fe = FiniteEval({cpar: w}, where=sims.rel)
+        for st in ast.walk(cl):
+            if isinstance(st, ast.Assign) and ast.unparse(st.targets[0]) == \
+                    'self._computed' and ast.unparse(st.value) == 'False':
+                if all(bool(fe.ev(t)) == pol
+                       for t, pol in au.guards_of(st, cl)):
+                    resets.add(w)
+    ctx.anchor(resets, 'Simulation.clean(what) resets _computed for some what')
+    cc = [c for c in au.calls(rs) if isinstance(c.func, ast.Attribute) and
+          c.func.attr == 'clean' and c.args and
+          isinstance(c.args[0], ast.Constant)]
+    repl = find('_s_.model = _m_[\'model\']', rs)
+    ok = len(cc) >= 1 and len(repl) >= 1 and all(
+        c.args[0].value in resets for c in cc) and \
+        min(c.lineno for c in cc) < min(n.lineno for n, _ in repl)
+    ctx.check('C18.Q2.routing', 'cli.run --clean: computed state reset before '
+              'the model is replaced', ok,
+              f'--clean calls clean({[c.args[0].value for c in cc]}); only '
+              f'{sorted(resets)} reset the computed flag and the cached '
+              'misfit/gradient, so the replaced model would report the old '
+              'results', ctx.where(rm, cc[0] if cc else rs))
+    ctx.floor('C18.Q2.routing', 4)
+    # default of receiver_interpolation per function: the API default
+    # (absent) for forward and misfit, 'linear' only for the gradient (as the
+    # documentation of the configuration file says)
+    for fct, want in (('forward', None), ('misfit', None),
+                      ('gradient', 'linear')):
+        ifs_ = [n for n in ast.walk(fn) if isinstance(n, ast.If) and has(
+            "_c_.has_option('simulation', _k_)", n.test) and any(
+                "'linear'" in ast.unparse(x) for x in ast.walk(n))]
+        ctx.anchor(len(ifs_) == 1, 'receiver_interpolation default in the '
+                   'parser')
+        node = ifs_[0]
+        got = 'unset'
+        # walk the elif chain with has_option False
+        cur = node.orelse
+        got = None
+        while cur:
+            if len(cur) == 1 and isinstance(cur[0], ast.If):
+                fe = FiniteEval({f"{W.term}['function']": fct},
+                                where=pm.rel)
+                if bool(fe.ev(cur[0].test)):
+                    vals = [x.value.value for x in cur[0].body if isinstance(
+                        x, ast.Assign) and isinstance(x.value, ast.Constant)]
+                    got = vals[0] if vals else 'other'
+                    break
+                cur = cur[0].orelse
+            else:
+                vals = [x.value.value for x in cur if isinstance(
+                    x, ast.Assign) and isinstance(x.value, ast.Constant)]
+                got = vals[0] if vals else None
+                break
+        ctx.check('C18.Q6.api_types', f'receiver_interpolation default for '
+                  f'{fct}', got == want, f'without the key the parser sets '
+                  f'{got!r} for a {fct} run; the API (and the documented) '
+                  f'default is {want!r}', ctx.where(pm, node),
+                  sample={'function': fct, 'default': got})
     # Q3
     mm = ctx.repo.mod(MAIN)
     mf = mm.func('main')
